@@ -464,7 +464,7 @@ fn run_kind(kind: &str, comp: &[Value], sched: &[Value], tr: &mut Tracer) -> any
         // number of steps the simulation's own top-level counter advanced by (walks only)
         let adv = sim.counter() as i64 - before as i64;
         tr.emit(json!({"ev":"Op","kind":kind,"name":name,"arg":arg,"ok":ok,"adv":adv,
-                       "msg":msg.chars().take(120).collect::<String>(),
+                       "msg":msg.chars().take(300).collect::<String>(),
                        "simi":sim.simi(),"nodes":nodes(&sim)}));
         if !ok {
             break; // as walk() would: a failed step ends the run
